@@ -337,3 +337,18 @@ def multi_core_kripke(rnd, atoms=('p', 'q')):
         n += 1
     L = [sorted(x for x in atoms if rnd.random() < 0.5) for _ in range(n)]
     return {'n': n, 'R': [list(e) for e in sorted(R)], 'L': L}, cores
+
+
+def tall_path(rnd, h, leaves=(('ap', 'p'), ('ap', 'q'), ('not', ('ap', 'p'))), base=None):
+    """a path formula of nesting height about h with few temporal operators: a specification assembled from many
+    requirements by folding a binary connective (r1 & r2 & ... as ((r1 & r2) & r3) ...).  Most requirements are neutral
+    for the connective (valid under `and`, unsatisfiable under `or`), so that the answer still depends on the innermost
+    parts and is not trivially all / no states."""
+    g = base if base is not None else rnd.choice([('G', ('ap', 'p')), ('F', ('ap', 'q')), ('U', ('ap', 'p'), ('ap', 'q')), ('G', ('F', ('ap', 'p')))])
+    op = rnd.choice(['and', 'and', 'or'])
+    neutral = {'and': [('true',), ('or', ('ap', 'p'), ('not', ('ap', 'p'))), ('or', ('ap', 'q'), ('true',)), ('not', ('false',))],
+               'or': [('false',), ('and', ('ap', 'p'), ('not', ('ap', 'p'))), ('not', ('true',)), ('and', ('ap', 'q'), ('false',))]}
+    for i in range(h):
+        leaf = rnd.choice(neutral[op]) if rnd.random() < 0.96 else rnd.choice(leaves)
+        g = (op, g, leaf) if rnd.random() < 0.8 else (op, leaf, g)
+    return g
